@@ -133,23 +133,8 @@ def run(ctx):
             why = 'expected a division by %d and one decrement (found %d/%d)' % (num, len(divs), len(decs))
             if ok:
                 ck = F.keys.key(kids(decs[0])[0])
-                dn = g.nodes_for(decs[0])
                 modk = '(%s %% n:%d)' % (ck, num)
-                found_pre = False
-                for d_ in divs:
-                    for n in g.nodes_for(d_):
-                        fs2 = F.facts_at(n)
-                        neg = ('<', ck, 'n:0') in fs2 or ('<=', ck, 'n:0') in fs2
-                        nonmult = any(op == '!=' and set((a, b)) == set((modk, 'n:0')) for (op, a, b) in fs2)
-                        if _reach_from(g, [n], dn):
-                            # the division that is followed by the decrement: made for a negative non-multiple only
-                            found_pre = True
-                            if not (neg and nonmult):
-                                ok, why = False, 'the decrement is not made exactly for a negative count that is not a multiple of %d' % num
-                        elif neg and nonmult:
-                            ok, why = False, 'a negative count that is not a multiple of %d is divided without the decrement' % num
-                if not found_pre:
-                    ok, why = False, 'the decrement does not follow a division'
+                ok, why = _floor_guard(wctx, f, F, g, decs[0], divs, ck, modk, num)
             ctx.check(ok, 'C18-floor', '%s: division corrected to floor exactly for a negative non-multiple' % label, f,
                       'join_seconds for a period of %d s does not floor (%s): instants before the epoch are attributed to the '
                       'following period' % (num, why), construct='floor:join:%s' % t[:60], detail='count / %d, -1 iff count < 0 and count %% %d != 0' % (num, num))
@@ -260,6 +245,61 @@ def run(ctx):
     if n_t < 2:
         raise AnalysisBroken('C18-trunc: fewer than 2 renderings of the femtosecond count found in format() (%d)' % n_t)
     ctx.minimum('C18-trunc', 2)
+
+
+def _floor_guard(wctx, f, F, g, dec, divs, ck, modk, num):
+    """The decrement runs exactly when the count, as it was before the division, is negative and not a multiple:
+    the tests that control it (written inline or as a named bool) are read where the count is still the original one."""
+    from ..symval import SymVal
+    sv = SymVal(wctx, f, helpers=False)
+    dnodes = g.nodes_for(dec)
+    if not dnodes:
+        return False, 'decrement not in the CFG'
+    divnodes = [n for d_ in divs for n in g.nodes_for(d_)]
+    after_div = set()
+    stack = [m for n in divnodes for (m, _) in n.succs]
+    while stack:
+        n = stack.pop()
+        if n.id in after_div:
+            continue
+        after_div.add(n.id)
+        stack.extend(m for (m, _) in n.succs)
+    byid = {n.id: n for n in g.live}
+    edges = [e for e in sv.conds_at(dnodes[0]) if e[0] in byid]
+    yes, no = [], []          # fact sets under which the decrement runs / does not run
+    for (nid, lab) in edges:
+        n = byid[nid]
+        x = peel(n.ast)
+        test, where = x, n
+        if x.get('kind') == 'DeclRefExpr':
+            d = f['_u'].by_id.get((x.get('referencedDecl') or {}).get('id'))
+            if d is not None and d.get('kind') == 'VarDecl' and d['id'] in F.never_written and kids(d) and \
+                    (dtype(d) or '').replace('const ', '').strip() == 'bool':
+                test = kids(d)[-1]
+                wn = g.nodes_for(d)
+                where = wn[0] if wn else n
+        if where.id in after_div:
+            continue            # evaluated on the divided count: says nothing about the original one
+        cases = F.bool_cases(test)
+        if any(not isinstance(v, bool) for (_, v) in cases):
+            continue
+        mine = [set(fs) for (fs, v) in cases if v is (lab == 'T')]
+        # the decrement runs under the conjunction of its controlling edges, and does not run when any one fails
+        yes = [a | b for a in (yes or [set()]) for b in mine]
+        no += [set(fs) for (fs, v) in cases if v is not (lab == 'T')]
+    if not yes:
+        return False, 'the decrement is not controlled by a test of the undivided count'
+    neg = lambda fs: ('<', ck, 'n:0') in fs or ('<=', ck, 'n:0') in fs
+    nonmult = lambda fs: any(op == '!=' and set((a, b)) == set((modk, 'n:0')) for (op, a, b) in fs)
+    if not all(neg(fs) and nonmult(fs) for fs in yes):
+        return False, 'the decrement is not made exactly for a negative count that is not a multiple of %d' % num
+    pos = lambda fs: ('<=', 'n:0', ck) in fs or ('<', 'n:0', ck) in fs
+    mult = lambda fs: any(op == '==' and set((a, b)) == set((modk, 'n:0')) for (op, a, b) in fs)
+    if not all(pos(fs) or mult(fs) for fs in no):
+        return False, 'a negative count that is not a multiple of %d is divided without the decrement' % num
+    if not any(n.id in after_div for n in dnodes):
+        return False, 'the decrement does not follow a division'
+    return True, ''
 
 
 def _is_template_inst(f):
